@@ -72,6 +72,9 @@ func c09FrameD(r *rand.Rand, e gen.Env, dh *c09DHCP) []byte {
 		sp, dp := uint16(68), uint16(67)
 		if m.Op == 2 {
 			sp, dp = 67, 68
+			if r.Intn(2) == 0 {
+				dp = 67 // a server's message on the server port (what a relay agent receives)
+			}
 		}
 		return dhcpFrame(mac, ip4zero, netip.MustParseAddr("255.255.255.255"), m, sp, dp, bcastMAC)
 	case k < 16:
@@ -763,15 +766,27 @@ func (cr *c09Run) run() {
 func (cr *c09Run) stalled(why string) {
 	c := cr.c
 	cpu0 := processCPU()
+	buf := make([]byte, 4<<20)
+	// goroutines waiting for a library lock now ...
+	before := map[string]string{}
+	for _, g := range strings.Split(string(buf[:runtime.Stack(buf, true)]), "\n\n") {
+		hdr := strings.SplitN(g, "\n", 2)[0]
+		if (strings.Contains(hdr, "sync.Mutex.Lock") || strings.Contains(hdr, "sync.RWMutex")) && strings.Contains(g, "github.com/irai/packet") {
+			before[strings.SplitN(hdr, " [", 2)[0]] = firstPacketFrame(g)
+		}
+	}
 	time.Sleep(3 * time.Second)
 	cpu := processCPU() - cpu0
-	buf := make([]byte, 4<<20)
 	dump := string(buf[:runtime.Stack(buf, true)])
-	var blocked, nested []string
+	var blocked, nested, persistent []string
 	for _, g := range strings.Split(dump, "\n\n") {
 		hdr := strings.SplitN(g, "\n", 2)[0]
 		if (strings.Contains(hdr, "sync.Mutex.Lock") || strings.Contains(hdr, "sync.RWMutex")) && strings.Contains(g, "github.com/irai/packet") {
 			blocked = append(blocked, firstPacketFrame(g))
+			// ... and still waiting at the same place three seconds later: the library's critical sections take microseconds
+			if f, ok := before[strings.SplitN(hdr, " [", 2)[0]]; ok && f == firstPacketFrame(g) {
+				persistent = append(persistent, f)
+			}
 			// a goroutine blocked two or more library frames deep may hold another library lock: candidates for the cycle
 			depth := 0
 			for _, l := range strings.Split(g, "\n") {
@@ -795,6 +810,18 @@ func (cr *c09Run) stalled(why string) {
 		if len(uniq) == 0 || uniq[len(uniq)-1] != b {
 			uniq = append(uniq, b)
 		}
+	}
+	if len(persistent) > 0 && !(len(blocked) >= 2 && cpu < 300*time.Millisecond) {
+		// a lock that is never released (no cycle needed): the rest of the process may be busy
+		sort.Strings(persistent)
+		var pu []string
+		for _, b := range persistent {
+			if len(pu) == 0 || pu[len(pu)-1] != b {
+				pu = append(pu, b)
+			}
+		}
+		c.Viol("deadlock:"+strings.Join(pu, "|"), fmt.Sprintf("%s; %d goroutines have been waiting for a library lock at the same place for 3 s; goroutine dump:\n%s", why, len(persistent), dump[:min(len(dump), 16000)]), map[string]any{"index": cr.idx})
+		return
 	}
 	if len(blocked) >= 2 && cpu < 300*time.Millisecond {
 		c.Viol("deadlock:"+strings.Join(uniq, "|"), fmt.Sprintf("%s; %d goroutines blocked on locks inside the library, process used %v CPU in 3 s; goroutine dump:\n%s", why, len(blocked), cpu, dump[:min(len(dump), 16000)]), map[string]any{"index": cr.idx})
